@@ -81,6 +81,11 @@ func registerVerifAPI(m *Machine) {
 		m.P.Reached[strArg(a[0])] = true
 		return nil
 	}
+	// Expect(label): the harness is vacuous unless some path reaches label.
+	N[P+"Expect"] = func(m *Machine, fr *Frame, a []Value) Value {
+		m.X.expect[strArg(a[0])] = true
+		return nil
+	}
 	N[P+"NoPanic"] = func(m *Machine, fr *Frame, a []Value) Value {
 		m.P.nopanic = true
 		return nil
